@@ -284,6 +284,15 @@ theorem never_redundant_without_superiors (within : Lookup) (rules : List RuleM)
     isRedundant within rules clusters pc = .ok false :=
   isRedundant_no_superiors within rules clusters pc rule (by rw [hpc]; exact findRule_of_distinct rules hd rule hr) hs fl hfl
 
+/-- … and without SUPERIORS in the ruleset the whole superiors step is the identity: every protocluster
+    formed and extended is kept, whatever the rules and their order (one of the stage facts behind the
+    remaining hypothesis of `pipeline_rule_order_invariant_partial`) -/
+theorem superiors_step_is_identity_without_superiors (within : Lookup) (rules : List RuleM) (clusters : List PC)
+    (hr : ∀ pc ∈ clusters, ∃ rule, findRule rules pc.rule = .ok rule ∧ rule.superiors = [])
+    (hf : ∀ pc ∈ clusters, ∃ fl, firstLast within pc = .ok fl) :
+    removeRedundant within rules clusters = .ok clusters :=
+  removeRedundant_no_superiors within rules clusters hr hf
+
 /-- **The only sanctioned cross-rule effect, definition-domain side** (`strip_inferior_domains`): the
     domains recorded for (gene, rule) are removed exactly when the gene also has an entry for one of the
     rule's superiors -/
@@ -595,21 +604,28 @@ theorem regions_rotation_invariant_no_origin_span_partial (s t : State) (hs : No
 
 theorem pipe_run_ok {r : Rec} {rules : List RuleM} {res : Pipe.Result} (h : Pipe.run r rules = .ok res) :
     detectProtoclusters (withinReal r) r rules = .ok res.outs ∧
-    CC.formation (Pipe.toProtos r res.outs) r.wrap = .ok res.cands ∧ res.protos = Pipe.toProtos r res.outs := by
+    CC.formation (Pipe.toProtos r res.outs) r.wrap = .ok res.cands ∧ res.protos = Pipe.toProtos r res.outs ∧
+    Pipe.late r (Pipe.toProtos r res.outs) = .ok (res.cands, res.regions) := by
   simp only [Pipe.run, bind, Except.bind] at h
   cases h1 : detectProtoclusters (withinReal r) r rules with
   | error e => simp [h1] at h
   | ok outs =>
     simp only [h1] at h
-    cases h2 : CC.formation (Pipe.toProtos r outs) r.wrap with
+    cases h2 : Pipe.late r (Pipe.toProtos r outs) with
     | error e => simp [h2] at h
-    | ok cands =>
-      simp only [h2] at h
-      split at h
-      · cases h
-      · simp only [pure, Except.pure, Except.ok.injEq] at h
-        subst h
-        exact ⟨rfl, h2, rfl⟩
+    | ok lr =>
+      simp only [h2, pure, Except.pure, Except.ok.injEq] at h
+      subst h
+      refine ⟨rfl, ?_, rfl, by rw [h2]⟩
+      simp only [Pipe.late, bind, Except.bind] at h2
+      cases h3 : CC.formation (Pipe.toProtos r outs) r.wrap with
+      | error e => simp [h3] at h2
+      | ok cands =>
+        simp only [h3] at h2
+        split at h2
+        · cases h2
+        · simp only [pure, Except.pure, Except.ok.injEq] at h2
+          rw [← h2]
 
 /-- **Whatever the origin, the pipeline's result is sound in the two respects that do not need the ring
     refinement**: whenever the whole pipeline (detection, candidate formation, region creation) returns on a
@@ -622,7 +638,7 @@ theorem pipeline_result_sound_on_every_origin (r : Rec) (hcirc : r.circular = tr
     (res.outs.map (·.pc)).Pairwise (fun p q => p.rule = q.rule → ∀ rule, findRule rules p.rule = .ok rule →
       ∀ x y, p.core.mem x = true → q.core.mem y = true → rule.cutoff < ringAbs r.len y x) ∧
     CC.Spec.coversAll res.protos res.cands = true := by
-  obtain ⟨h1, h2, h3⟩ := pipe_run_ok h
+  obtain ⟨h1, h2, h3, _⟩ := pipe_run_ok h
   refine ⟨no_chain_reported_in_two_pieces_any_origin (withinReal r) r hcirc hL rules hrules hgenes res.outs h1, ?_⟩
   rw [h3]
   exact ASV.C05.every_protocluster_in_a_candidate _ _ _ h2
@@ -706,6 +722,145 @@ example :
       | .error _ => []) = [[("a", 7500, 1500), ("b", 30000, 7500)], [("b", 30000, 7500)]] := by
   decide +kernel
 
+/-- everything after detection is a function of the *multiset* of reported protoclusters (C05
+    `formation_perm_invariant`: candidate formation returns the same ordered list for every arrangement of
+    its input; region creation then starts from that same list) -/
+theorem late_stages_ignore_protocluster_order (r : Rec) (ps qs : List CC.Proto) (hp : ps.Perm qs) (hn : ps.Nodup)
+    (hk : ∀ a b, a ∈ ps → b ∈ ps → a ≠ b →
+      (a.product, a.core.start, a.core.end) ≠ (b.product, b.core.start, b.core.end)) :
+    Pipe.late r ps = Pipe.late r qs := by
+  simp only [Pipe.late, ASV.C05.formation_perm_invariant ps qs r.wrap hn hk hp]
+
+/-- **Rule order and the whole pipeline** — `_partial`.  Run the pipeline with a ruleset and with any
+    re-ordering (or other variant) of it.  *Remaining hypothesis* `hdet`: detection reports the same
+    protoclusters, as a multiset (each with its definition domains) — what Part 2 proves stage by stage for the
+    anchoring genes, the cores of `find_protoclusters`, the extenders and the superiors step, but not yet for
+    the two `merge_over_origin` passes, which group by product.  Then, whenever no two protoclusters share
+    product and core (one rule never yields two protoclusters on one core), the candidate clusters are the same
+    ordered list and the regions are the same ordered list (locations and member candidates), on linear and
+    circular records alike. -/
+theorem pipeline_rule_order_invariant_partial (r : Rec) (rules rules' : List RuleM) (res res' : Pipe.Result)
+    (h : Pipe.run r rules = .ok res) (h' : Pipe.run r rules' = .ok res')
+    (hdet : res.outs.Perm res'.outs)
+    (hn : (Pipe.toProtos r res.outs).Nodup)
+    (hk : ∀ a b, a ∈ Pipe.toProtos r res.outs → b ∈ Pipe.toProtos r res.outs → a ≠ b →
+      (a.product, a.core.start, a.core.end) ≠ (b.product, b.core.start, b.core.end)) :
+    res'.cands = res.cands ∧ res'.regions = res.regions ∧ res.protos.Perm res'.protos := by
+  obtain ⟨_, _, hp1, hl1⟩ := pipe_run_ok h
+  obtain ⟨_, _, hp2, hl2⟩ := pipe_run_ok h'
+  have hperm : (Pipe.toProtos r res.outs).Perm (Pipe.toProtos r res'.outs) := hdet.map (Pipe.toProto r)
+  rw [late_stages_ignore_protocluster_order r _ _ hperm hn hk, hl2] at hl1
+  have e := Except.ok.inj hl1
+  refine ⟨(congrArg Prod.fst e), (congrArg Prod.snd e), ?_⟩
+  rw [hp1, hp2]
+  exact hperm
+
+/-- … and when the two rulesets do report the same protoclusters in the same order (e.g. a ruleset and its
+    copy built through the parser), the whole result is the same -/
+theorem pipeline_is_function_of_reported_protoclusters (r : Rec) (rules rules' : List RuleM)
+    (res res' : Pipe.Result) (h : Pipe.run r rules = .ok res) (h' : Pipe.run r rules' = .ok res')
+    (hdet : res'.outs = res.outs) : res'.cands = res.cands ∧ res'.regions = res.regions := by
+  obtain ⟨_, _, _, hl1⟩ := pipe_run_ok h
+  obtain ⟨_, _, _, hl2⟩ := pipe_run_ok h'
+  rw [hdet, hl1] at hl2
+  have e := Except.ok.inj hl2
+  exact ⟨(congrArg Prod.fst e).symm, (congrArg Prod.snd e).symm⟩
+
+theorem late_ok {r : Rec} {ps : List CC.Proto} {cands : List CC.Cand} {regions : List (Loc × List Nat)}
+    (h : Pipe.late r ps = .ok (cands, regions)) :
+    CC.formation ps r.wrap = .ok cands ∧
+    ∃ st', Regions.createRegions (Pipe.stateOf r cands) = .ok st' ∧ regions = st'.regions.map fun f => (f.loc, f.kids) := by
+  simp only [Pipe.late, bind, Except.bind] at h
+  cases h1 : CC.formation ps r.wrap with
+  | error e => simp [h1] at h
+  | ok cs =>
+    simp only [h1] at h
+    cases h2 : Regions.createRegions (Pipe.stateOf r cs) with
+    | error e => simp [h2] at h
+    | ok st' =>
+      simp only [h2, pure, Except.pure, Except.ok.injEq, Prod.mk.injEq] at h
+      obtain ⟨rfl, rfl⟩ := h
+      exact ⟨rfl, st', h2, rfl⟩
+
+theorem areasOf_stateOf (r : Rec) (cands : List CC.Cand) :
+    Regions.areasOf (Pipe.stateOf r cands) = ((cands.map (·.loc)).zipIdx).map fun x => (x.2, x.1) := by
+  simp only [Regions.areasOf, Pipe.stateOf, List.append_nil, List.map_map, List.zipIdx_map]
+  apply List.map_congr_left
+  intro x _
+  rfl
+
+open ASV.Regions in
+/-- **Origin rotation and the regions of the whole pipeline** — `_partial`.  Run the pipeline on a circular
+    record `r` and on a re-indexing `r'` of it.  *Remaining hypothesis* `hform`: detection and candidate
+    formation report the same candidate clusters in the same order with rotated extents (for detection this is
+    `protoclusters_rotation_invariant_inner_partial` when the anchoring genes stay in an inner arc — a cut away
+    from every chain keeps coordinate order — and for formation it is proved pass by pass:
+    `neighbouring_groups_rotation_invariant`, C05 `interleaved_groups_are_classes_ring`; the coordinate table of
+    `build_candidates` is not composed yet).  If, as in an inner arc, no candidate cluster spans the origin on
+    either record, region creation succeeds on both, every region is the hull of one group of candidate
+    clusters, and every group of `r` reappears on `r'` with exactly the same candidate clusters. -/
+theorem pipeline_regions_rotation_invariant_inner_partial (r r' : Rec) (rules : List RuleM) (res res' : Pipe.Result)
+    (h : Pipe.run r rules = .ok res) (h' : Pipe.run r' rules = .ok res')
+    (L k : Int) (hL : 0 < L) (hlen : r.len = L) (hlen' : r'.len = L) (rot : Loc → Loc)
+    (hform : res'.cands.map (·.loc) = res.cands.map fun c => rot c.loc)
+    (hline : ∀ c ∈ res.cands, LineArea L c.loc ∧ LineArea L (rot c.loc))
+    (hrot : ∀ c ∈ res.cands, IsRot L k c.loc (rot c.loc)) :
+    ∃ (s' t' : State) (gs gt : List (List Feat)),
+      createRegions (Pipe.stateOf r res.cands) = .ok s' ∧ createRegions (Pipe.stateOf r' res'.cands) = .ok t' ∧
+      res.regions = s'.regions.map (fun f => (f.loc, f.kids)) ∧ res'.regions = t'.regions.map (fun f => (f.loc, f.kids)) ∧
+      s'.regions.map view = gs.map expectedRegion ∧ t'.regions.map view = gt.map expectedRegion ∧
+      ∀ g ∈ gs, ∃ g' ∈ gt, ∀ i, i ∈ g'.map (·.id) ↔ i ∈ g.map (·.id) := by
+  obtain ⟨_, _, _, hl1⟩ := pipe_run_ok h
+  obtain ⟨_, _, _, hl2⟩ := pipe_run_ok h'
+  obtain ⟨_, s1, hc1, hr1⟩ := late_ok hl1
+  obtain ⟨_, t1, hc2, hr2⟩ := late_ok hl2
+  have locs : ∀ (q : Rec) (cs : List CC.Cand), ((Pipe.stateOf q cs).cands ++ (Pipe.stateOf q cs).subs).map (·.loc) = cs.map (·.loc) := by
+    intro q cs
+    simp only [Pipe.stateOf, List.append_nil, List.map_map]
+    have : (fun x : CC.Cand × Nat => x.1.loc) = (fun c : CC.Cand => c.loc) ∘ Prod.fst := rfl
+    show (cs.zipIdx.map fun x => x.1.loc) = _
+    rw [this, ← List.map_map, List.zipIdx_map_fst]
+  have hs : NoSpanOK (Pipe.stateOf r res.cands) := by
+    refine ⟨?_, rfl⟩
+    intro f hf
+    have : f.loc ∈ res.cands.map (·.loc) := by rw [← locs r res.cands]; exact List.mem_map_of_mem hf
+    obtain ⟨c, hc, e⟩ := List.mem_map.1 this
+    show LineArea r.len f.loc
+    rw [← e, hlen]; exact (hline c hc).1
+  have ht : NoSpanOK (Pipe.stateOf r' res'.cands) := by
+    refine ⟨?_, rfl⟩
+    intro f hf
+    have : f.loc ∈ res'.cands.map (·.loc) := by rw [← locs r' res'.cands]; exact List.mem_map_of_mem hf
+    rw [hform] at this
+    obtain ⟨c, hc, e⟩ := List.mem_map.1 this
+    show LineArea r'.len f.loc
+    rw [← e, hlen']; exact (hline c hc).2
+  have hperm : (areasOf (Pipe.stateOf r' res'.cands)).Perm
+      ((areasOf (Pipe.stateOf r res.cands)).map fun a => (a.1, rot a.2)) := by
+    rw [areasOf_stateOf, areasOf_stateOf, hform]
+    have : (res.cands.map fun c => rot c.loc) = (res.cands.map (·.loc)).map rot := by rw [List.map_map]; rfl
+    rw [this, List.zipIdx_map, List.map_map, List.map_map]
+    exact List.Perm.refl _
+  have hrot' : ∀ a ∈ areasOf (Pipe.stateOf r res.cands), IsRot L k a.2 (rot a.2) := by
+    intro a ha
+    rw [areasOf_stateOf] at ha
+    obtain ⟨x, hx, rfl⟩ := List.mem_map.1 ha
+    have hm : x.1 ∈ res.cands.map (·.loc) := by
+      have := List.mem_map_of_mem (f := Prod.fst) hx
+      rwa [List.zipIdx_map_fst] at this
+    obtain ⟨c, hc, e⟩ := List.mem_map.1 hm
+    show IsRot L k x.1 (rot x.1)
+    rw [← e]; exact hrot c hc
+  obtain ⟨s', t', gs, gt, e1, e2, v1, v2, hall⟩ := regions_rotation_invariant_no_origin_span_partial
+    (Pipe.stateOf r res.cands) (Pipe.stateOf r' res'.cands) hs ht L k hL hlen (fun a => (a.1, rot a.2))
+    (fun _ => rfl) hperm hrot'
+  rw [hc1] at e1
+  rw [hc2] at e2
+  have es := Except.ok.inj e1
+  have et := Except.ok.inj e2
+  subst es; subst et
+  exact ⟨_, _, gs, gt, hc1, hc2, hr1, hr2, v1, v2, hall⟩
+
 /-! ### the layout of the seeded change C07_3: a chain A – e1 – B – e2 – C that exists only through EXTENDERS -/
 
 def chainRules : List RuleM :=
@@ -780,5 +935,18 @@ example : IsRot 20 10 (.simple ⟨8, 12, .fwd⟩) (areaTwo 18 2 20 .fwd) := by
     rcases this with rfl | rfl <;> omega
 example : nearB 20 3 (areaTwo 18 2 20 .fwd) (.simple ⟨4, 6, .fwd⟩) = true ∧ nearB 20 2 (areaTwo 18 2 20 .fwd) (.simple ⟨4, 6, .fwd⟩) = false := by
   decide
+
+/-- non-vacuity of `pipeline_rule_order_invariant_partial` on D1's layout: the two orders of the ruleset
+    report the two protoclusters in different orders (by rule); the pipeline returns, and the candidate
+    clusters (one chemical hybrid of both) and the regions are the same lists -/
+example :
+    let late := fun (res : Pipe.Result) => (res.cands.map (fun c => (c.members.map (·.product), c.loc)), res.regions)
+    let a := Pipe.run d1Rec [d1Rule "r1" 20000, d1Rule "r3" 20000]
+    let b := Pipe.run d1Rec [d1Rule "r3" 20000, d1Rule "r1" 20000]
+    (a.toOption.map late).isSome = true ∧ a.toOption.map late = b.toOption.map late ∧
+    a.toOption.map (fun res => res.outs.map (·.pc.rule)) = some ["r1", "r3"] ∧
+    b.toOption.map (fun res => res.outs.map (·.pc.rule)) = some ["r3", "r1"] ∧
+    a.toOption.map (fun res => res.cands.map (·.members.map (·.product))) = some [["r1", "r3"]] := by
+  decide +kernel
 
 end ASV.C07
